@@ -14,7 +14,7 @@ RULE = ("codepoints: every one of the 1,114,112 code points is compared with a l
         "distinct = distinct (workload, input) signatures.")
 ASSUMPTIONS = ["contents of rich/_cell_widths.py CELL_WIDTHS are the Unicode width table (trusted data)",
                "reference width = independent linear walk over that table"]
-REQUIRED = ["mon.codepoint", "mon.cell_len", "mon.cache_history", "mon.set_cell_size",
+REQUIRED = ["mon.codepoint", "mon.codepoint_orders", "mon.cell_len", "mon.cache_history", "mon.set_cell_size",
             "mon.chop_cells", "mon.adjust_line_length", "mon.split_and_crop", "mon.set_shape",
             "mon.simplify", "mon.split_lines"]
 MIN_NONTRIVIAL = {"quick": 2000, "thorough": 20000}
@@ -56,6 +56,34 @@ def wl_codepoints(ctx):
         # second lookup (now cached) must agree as well
         if cp % 7 == 0 and get(ch) != ref:
             ctx.violation("codepoint-width-cached-mismatch", {"cp": hex(cp)})
+    # the same range again in DESCENDING order (the 4096-entry cache holds almost none of it): a lookup must not
+    # depend on which neighbour was looked up just before
+    for cp in range(hi - 1, lo - 1, -1):
+        ch = chr(cp)
+        if get(ch) != cellref.char_width(ch):
+            ctx.violation("codepoint-width-depends-on-lookup-order", {"cp": hex(cp), "got": get(ch),
+                                                                     "ref": cellref.char_width(ch), "order": "descending"})
+            break
+    n += hi - lo
+    # every order of the four code points around each table-range boundary, from an empty cache each time
+    import itertools
+    clear = getattr(cells._get_codepoint_cell_size, "cache_clear", None)
+    rows = [r for i, r in enumerate(CELL_WIDTHS) if i % ctx.nshards == ctx.shard]
+    for start, end, _w in rows:
+        pts = sorted({p for p in (start - 1, start, end, end + 1) if 0 <= p < 0x110000})
+        for order in itertools.permutations(pts):
+            if clear is not None:
+                clear()
+            for cp in order:
+                ch = chr(cp)
+                got = get(ch)
+                n += 1
+                if got != cellref.char_width(ch):
+                    ctx.violation("codepoint-width-depends-on-lookup-order",
+                                  {"cp": hex(cp), "got": got, "ref": cellref.char_width(ch),
+                                   "order": [hex(x) for x in order]})
+                    break
+    ctx.count("mon.codepoint_orders", len(rows))
     ctx.count("mon.codepoint", n)
     ctx.mark_exhaustive("codepoints", n)
     ctx.evaluations += n
